@@ -157,8 +157,8 @@ def run(ctx):
             if ty == 9: p1 = rng.choice([1, 3, 8]); p3 = rng.choice([1, 2])
             lcases.append('ledger %d %d %d %d %d' % (ty, p1, p2, p3, p4))
     # array constructors, FFT-domain objects (types 15-17, 20-32): balance only
-    for ty in list(range(15, 18)) + list(range(20, 33)):
-        p1 = 1024 if ty in (15, 16, 17, 21, 27, 31) else rng.choice([1, 3, 8, 17])
+    for ty in list(range(15, 18)) + list(range(20, 35)):
+        p1 = 1024 if ty in (15, 16, 17, 21, 27, 31) else rng.choice([1, 3, 8, 17]) if ty < 33 else rng.choice([1, 2, 3])
         lcases.append('ledger %d %d %d %d %d' % (ty, p1, rng.choice([1, 2]), rng.choice([1, 2, 3]), rng.choice([1, 2, 5])))
     louts = vlib.run_lines(lexe, lcases, timeout=1800)
     mlines = []
@@ -174,6 +174,20 @@ def run(ctx):
             ctx.report('delete-leaves-blocks', '%s: %d blocks (%d bytes) requested by new_<type> are still allocated after delete_<type>' % (l, after[0], after[1]), {'tool': 'ledger', 'lines': [l], 'observed': o[:600]})
         if int(l.split()[1]) < 15 and obs != ints(m):
             ctx.soft('correspondence:ledger', '%s: blocks requested by new_<type> %s... differ from the ledger model %s...' % (l, obs[:8], ints(m)[:8]), {'tool': 'ledger', 'lines': [l], 'observed': obs[:200], 'model': ints(m)[:200]})
+    # the two-phase C API (alloc_<type> + init_<type>, destroy_<type> + free_<type>, and the _array forms) must request the same blocks as
+    # new_<type> and leave nothing behind either
+    tcases = ['ledger %d %s' % (int(l.split()[1]) + 100, l.split(' ', 2)[2]) for l in lcases]
+    touts = vlib.run_lines(lexe, tcases, timeout=1800)
+    for l, tl, o, to in zip(lcases, tcases, louts, touts):
+        ctx.count(tl)
+        if not to.startswith('ok'): ctx.report('ledger-crash', '%s (alloc_/init_/destroy_/free_ API) died: %s' % (tl, to[:80]), {'tool': 'ledger', 'lines': [tl]}); continue
+        if not o.startswith('ok'): continue
+        v = ints(to[2:]); sep = v.index(-1, 11); obs2 = v[11:sep]; after = v[sep + 1:]
+        v0 = ints(o[2:]); obs0 = v0[11:v0.index(-1, 11)]
+        if after[0] != 0:
+            ctx.report('destroy-free-leaves-blocks', '%s: %d blocks (%d bytes) requested by alloc_<type> + init_<type> are still allocated after destroy_<type> + free_<type>' % (tl, after[0], after[1]), {'tool': 'ledger', 'lines': [tl], 'observed': to[:600]})
+        if obs2 != obs0:
+            ctx.report('two-phase-api-differs', '%s: alloc_<type> + init_<type> requests blocks %s..., new_<type> requests %s... for the same object' % (tl, obs2[:8], obs0[:8]), {'tool': 'ledger', 'lines': [tl, l], 'observed': obs2[:200], 'new_api': obs0[:200]})
     for c in [(0, 3, 1, 2, 10, 8, 2), (0, 8, 2, 3, 7, 4, 4), (128, 0, 0, 0, 0, 0, 0)]:
         for tr in (0, 1):
             l = 'lifeleak %s %d %d' % (' '.join(map(str, c)), sd, tr); o = vlib.run_lines(lexe, [l], timeout=1800)[0]; ctx.count(l)
